@@ -590,6 +590,7 @@ func TestScratch(t *testing.T) {
 		})
 	importGivenCheck(t, env)
 	userTypeclassCheck(t, env)
+	tiedInstancesCheck(t, env)
 	adaptorCheck(t, env)
 	generateCheck(t, env)
 }
